@@ -344,3 +344,18 @@ package invoices
 //@   ensures result1 == nil ==> result0.State == old(src.State) && result0.AmtPaid == old(src.AmtPaid) && result0.HodlInvoice == old(src.HodlInvoice) &&
 //@           result0.AddIndex == old(src.AddIndex) && result0.SettleIndex == old(src.SettleIndex) && result0.CreationDate == old(src.CreationDate) &&
 //@           result0.SettleDate == old(src.SettleDate)
+//@
+//@ // ---- a replayed HTLC gets the verdict it got originally: the spontaneous-payment pre-processing (keysend, AMP) runs before the replay
+//@ // ---- lookup, so the chain height must never make it refuse an HTLC - when the expiry is too close it only skips inserting the invoice
+//@ // ---- (no invoice is inserted for an HTLC that will not be settled) and leaves the verdict to the lookup (finding F38)
+//@ func (i *InvoiceRegistry) processKeySend
+//@   props C15
+//@   loop * havoc
+//@   site return * nth 4 as too-soon-is-not-an-error: assert result == nil && !called(AddInvoice)
+//@   site call AddInvoice: assert ctx.expiry >= wrap(swrap(ctx.currentHeight + i.cfg.FinalCltvRejectDelta, 32), 32)
+//@
+//@ func (i *InvoiceRegistry) processAMP
+//@   props C15
+//@   loop * havoc
+//@   site return * nth 1 as too-soon-is-not-an-error: assert result == nil && !called(AddInvoice)
+//@   site call AddInvoice: assert ctx.expiry >= wrap(swrap(ctx.currentHeight + i.cfg.FinalCltvRejectDelta, 32), 32)
